@@ -531,3 +531,19 @@ Example C17_wide_concrete :
        (WPC (pc_of_fun (w_bin wide_example) false 2 1 (fun _ _ _ => 0))) = 5%nat.
 Proof. exact wide_example_refuted. Qed.
 Print Assumptions C17_wide_concrete.
+
+(* ---------------- selection by an index list (Model/SmallVariants2.v) ---------------- *)
+From Verif Require SmallVariants2 SmallVariants2P.
+(* entry a of a selection is the entry the a-th listed index names: the order (and the repeats) of the list are kept ... *)
+Theorem C17_select_entry : forall (A : Type) (d : A) (idx : list nat) (l : list A) (a : nat),
+  (a < length idx)%nat -> nth a (SmallVariants2.select d idx l) d = nth (nth a idx 0%nat) l d.
+Proof. exact @SmallVariants2P.select_entry. Qed.
+Print Assumptions C17_select_entry.
+(* ... a selection through a boolean mask returns the entries in ascending position: for an unsorted list the counts (by list)
+   and the weight sums (by mask) of one selection describe different patches *)
+Theorem C17_select_through_mask_refuted :
+  exists (idx : list nat) (l : list nat),
+    SmallVariants2.select 0%nat idx l <> SmallVariants2.select_mask 0%nat idx l /\
+    length (SmallVariants2.select 0%nat idx l) = length (SmallVariants2.select_mask 0%nat idx l).
+Proof. exact SmallVariants2P.select_mask_refuted. Qed.
+Print Assumptions C17_select_through_mask_refuted.
